@@ -1,5 +1,6 @@
 (** C04 — every value is destructed exactly once and all memory is returned. *)
-From GA Require Import Model.Spec Proofs.Inv Proofs.InvSweep Proofs.Once Proofs.InvWorld Proofs.Safety.
+From GA Require Import Model.Spec Proofs.Inv Proofs.InvSweep Proofs.Once Proofs.InvWorld Proofs.Safety
+     Proofs.Life Proofs.LifeCollect Proofs.Lifetime.
 Local Open Scope nat_scope.
 
 (** Dropping the arena of any reachable world, in whatever phase it is and with shells present:
@@ -39,9 +40,46 @@ Theorem C04_ids_fresh : forall c o, snd (link c o) = length (heap c) /\ get c (l
 Proof. exact link_fresh. Qed.
 Print Assumptions C04_ids_fresh.
 
-(** PARTIAL: the composition into a single statement over the whole event history of an arena
-    ("for every history ending in dropping the arena, count EvDrop x = count EvFree x = 1") is
-    evaluated on every implementation trace by the C04 oracle; the Coq development proves the
-    per-step discipline above from which it follows (a live flag never returns to true, ids are
-    never re-used). The "exact layout" clause is C17's. Payload destructors that panic are outside
-    the model. *)
+(** The whole life of an arena.  [hist_run] runs an operation sequence and keeps, as a ghost, the list
+    of destructor / release events each arena has emitted since it was created ([hist_step] appends the
+    events of an operation to the history of the arena it targets).  Whenever an arena of a reachable
+    world disappears -- [ODropArena], or a constructor / root map that fails or panics -- in whatever
+    phase it is (asleep, mid-mark, fully marked, mid-sweep), with whatever mix of live values, shells
+    and garbage: for EVERY id it ever allocated its history contains exactly one destructor run and
+    exactly one release, and nothing for any other id. *)
+Theorem C04_lifetime_exactly_once :
+  forall ops o a ar x,
+    let w := fst (hist_run world_init hist0 ops) in
+    let H := snd (hist_run world_init hist0 ops) in
+    get_arena w a = Some ar -> get_arena (fst (step w o)) a = None ->
+    count (EvDrop x) (hist_step w o H a) = (if Nat.ltb x (length (heap (actx ar))) then 1 else 0)
+    /\ count (EvFree x) (hist_step w o H a) = (if Nat.ltb x (length (heap (actx ar))) then 1 else 0).
+Proof. exact lifetime_exactly_once. Qed.
+Print Assumptions C04_lifetime_exactly_once.
+
+(** and at every earlier moment the history agrees with the heap: no event for a live value, exactly
+    one destructor run and no release for a shell, exactly one of each for a released block *)
+Theorem C04_lifetime_consistent :
+  forall ops a ar,
+    let w := fst (hist_run world_init hist0 ops) in
+    let H := snd (hist_run world_init hist0 ops) in
+    get_arena w a = Some ar -> HistOK (actx ar) (H a).
+Proof. exact lifetime_consistent. Qed.
+Print Assumptions C04_lifetime_consistent.
+
+Theorem C04_hist_run_is_run : forall ops w H, fst (hist_run w H ops) = run w ops.
+Proof. exact hist_run_fst. Qed.
+Print Assumptions C04_hist_run_is_run.
+
+(** non-vacuity: a weakly held object is destructed by a sweep, its shell survives a cycle, and the arena is
+    dropped mid-mark: ids 0..3 each show one destructor run and one release *)
+Example C04_nonvacuous :
+  let ops := [OBegin 0 CNew; OMicro (MAlloc 0 KNode 1 1); OMicro (MAlloc 4 KNode 1 0); OMicro (MAlloc 5 KLeaf 0 0);
+              OMicro (MDowngrade 0 4); OMicro (MStoreW 0 0 (Some 0)); OMicro (MAlloc 4 KNode 1 0); OEnd;
+              OCollect 0 HFinishCycle None; OCollect 0 HMarkDebt None] in
+  let w := fst (hist_run world_init hist0 ops) in
+  let H := hist_step w (ODropArena 0) (snd (hist_run world_init hist0 ops)) in
+  map (fun x => (count (EvDrop x) (H 0), count (EvFree x) (H 0))) [0; 1; 2; 3; 4] = [(1, 1); (1, 1); (1, 1); (1, 1); (0, 0)].
+Proof. vm_compute. reflexivity. Qed.
+
+(** The "exact layout" clause is C17's; payload destructors that panic are outside the model. *)
